@@ -452,8 +452,9 @@ func sharedStructures(rec *fw.Rec) {
 
 func Run(cfg fw.Config, rec *fw.Rec) {
 	sharedStructures(rec)
-	rec.Rule = "Go structures in which two nodes share one *Branches / one *Node has two names / one *Branch is in two lists (bare-string JSON-text patterns under patternSyntax json) must compile to what their JSON rendering compiles to; each abstract spec (random node graph, guards, actions, all error settings, plus a start node whose message-branch patterns cover every JSON shape at the top level: map, array, bare string, bare variable, number, boolean, null, property variable) is rendered as Go structures, JSON, YAML via jsccast/yaml, and through sio's URL loader (YAML and JSON files) and inline loader, each with inline patterns and with JSON-text patterns under patternSyntax json, each compiled once / three times / compiled-serialised-reloaded-compiled (42 variants incl. Go structures whose inline patterns are typed Go containers such as map[string]string, []string, []int), and with every name the standard interpreter map offers for the ECMAScript interpreter ('', ecmascript, ecmascript-5.1, ecmascript-ext, ecmascript-5.1-ext, goja), compiled with that map, once and reloaded (12 more); all must compile and give identical traces on shared message sequences; unknown interpreter (also: a name only the standard map knows, compiled with the default interpreters; an unknown name with the standard map) / pattern syntax / branching type must fail at Compile; non-trivial = spec whose trace has >= 3 strides; distinct by spec"
-	rec.Required = []string{"go_structures_with_shared_parts_agree_with_their_rendering", "variants_agree", "negative_unknown_interpreter", "negative_standard_only_name_with_default_interpreters", "negative_unknown_interpreter_with_standard_map", "negative_unknown_pattern_syntax", "negative_unknown_pattern_syntax_without_patterns", "spec_repaired_after_a_failed_compile_equals_clean", "negative_unknown_branching_type", "string_pattern_as_json_text", "traces_with_scalar_messages"}
+	typedNilPatterns(rec)
+	rec.Rule = "Go structures in which two nodes share one *Branches / one *Node has two names / one *Branch is in two lists (bare-string JSON-text patterns under patternSyntax json) must compile to what their JSON rendering compiles to; so must Go structures whose pattern is a typed nil (nil map, nil list, nil []string, below a key, in a list: null in JSON); each abstract spec (random node graph, guards, actions, all error settings, plus a start node whose message-branch patterns cover every JSON shape at the top level: map, array, bare string, bare variable, number, boolean, null, property variable) is rendered as Go structures, JSON, YAML via jsccast/yaml, and through sio's URL loader (YAML and JSON files) and inline loader, each with inline patterns and with JSON-text patterns under patternSyntax json, each compiled once / three times / compiled-serialised-reloaded-compiled (42 variants incl. Go structures whose inline patterns are typed Go containers such as map[string]string, []string, []int), and with every name the standard interpreter map offers for the ECMAScript interpreter ('', ecmascript, ecmascript-5.1, ecmascript-ext, ecmascript-5.1-ext, goja), compiled with that map, once and reloaded (12 more); all must compile and give identical traces on shared message sequences; unknown interpreter (also: a name only the standard map knows, compiled with the default interpreters; an unknown name with the standard map) / pattern syntax / branching type must fail at Compile; non-trivial = spec whose trace has >= 3 strides; distinct by spec"
+	rec.Required = []string{"go_structures_with_shared_parts_agree_with_their_rendering", "typed_nil_patterns_agree_with_their_rendering", "variants_agree", "negative_unknown_interpreter", "negative_standard_only_name_with_default_interpreters", "negative_unknown_interpreter_with_standard_map", "negative_unknown_pattern_syntax", "negative_unknown_pattern_syntax_without_patterns", "spec_repaired_after_a_failed_compile_equals_clean", "negative_unknown_branching_type", "string_pattern_as_json_text", "traces_with_scalar_messages"}
 	rec.Assume = []string{"specs are deterministic", "the YAML rendering is block style with JSON flow scalars/collections for patterns"}
 	n := cfg.Pick(400, 20000)
 	fw.Parallel(cfg.Workers, n, func(w, i int) {
